@@ -480,43 +480,14 @@ where
                     mask: initial_capacity.saturating_sub(1),
                 })
             }
-            StorageStrategy::SmallInline { inline_capacity, .. } => {
-                Ok(HashMapStorage::SmallInline {
-                    inline_data: InlineStorage {
-                        // SAFETY: This creates an array of MaybeUninit<(K, V)> values.
-                        // MaybeUninit<T> does not require initialization, so an array of
-                        // uninitialized MaybeUninit values is valid. Individual elements
-                        // are only accessed after being explicitly initialized.
-                        data: unsafe { MaybeUninit::uninit().assume_init() },
-                        occupied: 0,
-                    },
-                    fallback: None,
-                    len: 0,
-                })
-            }
-            StorageStrategy::CacheOptimized { .. } => {
-                Ok(HashMapStorage::CacheOptimized {
-                    buckets: FastVec::with_capacity(config.initial_capacity)?,
-                    hot_data: FastVec::with_capacity(config.initial_capacity)?,
-                    cold_data: FastVec::with_capacity(config.initial_capacity)?,
-                    prefetcher: Prefetcher::new(),
-                })
-            }
-            StorageStrategy::StringOptimized { arena_size, .. } => {
-                Ok(HashMapStorage::StringOptimized {
-                    arena: StringArena {
-                        data: FastVec::with_capacity(*arena_size)?,
-                        offsets: FastVec::with_capacity(256)?,
-                        interned: std::collections::HashMap::new(),
-                    },
-                    buckets: FastVec::with_capacity(config.initial_capacity)?,
-                    entries: FastVec::with_capacity(config.initial_capacity)?,
-                    prefix_cache: FastVec::with_capacity(config.initial_capacity)?,
-                })
-            }
-            StorageStrategy::PoolAllocated { .. } => {
-                // For now, fallback to standard storage
-                // TODO: Implement pool-based allocation
+            StorageStrategy::SmallInline { .. }
+            | StorageStrategy::CacheOptimized { .. }
+            | StorageStrategy::StringOptimized { .. }
+            | StorageStrategy::PoolAllocated { .. } => {
+                // For now, fallback to standard storage: the inline, cache-optimized
+                // and string-optimized storages have no insert/get/remove yet
+                // TODO: Implement inline, cache-optimized, string-optimized and
+                // pool-based storage
                 Ok(HashMapStorage::Standard {
                     buckets: FastVec::with_capacity(config.initial_capacity)?,
                     entries: FastVec::with_capacity(config.initial_capacity)?,
